@@ -204,6 +204,7 @@ func ruleUpgradeOrder(r *Report) {
 				r.BadPath(rule, "remapIndex/markers-removed-after-completion-header", rm.Pos(), "the .remapped markers can be removed before the completion header is written: if that write fails or the process dies in between, the next open remaps the already remapped files a second time — nearly every entry is mis-pointed or dropped", path)
 			}
 		}
+		ruleRemapCutsDescending(r, rule)
 		// entries whose primary data no longer exists are dropped, not mis-pointed
 		for _, c := range callSites(fn, "(*mhprimary.IndexRemapper).RemapOffset") {
 			rc := asCall(c)
@@ -333,6 +334,7 @@ func ruleRolloverSiblings(r *Report) {
 		}
 	}
 	ruleChunkAccounting(r)
+	ruleChunkWritesEveryPath(r, "chunk-accounting")
 	if len(sibs) == 0 {
 		return
 	}
